@@ -21,13 +21,30 @@ ASSUMPTIONS = ["the expected table: source bound + 1 per dimension, 11 per used 
 REQUIRED_COUNTERS = ["tables_checked"]
 
 POSITIONS = ["target", "expr", "fnarg", "read", "input", "subscript", "print", "varptr", "fnarg_conv",
-             "in_then", "in_else", "in_elif_noelse", "in_elif_else", "in_then_nested"]
+             "in_then", "in_else", "in_elif_noelse", "in_elif_else", "in_then_nested", "for_start", "for_limit", "for_step",
+             "on_selector", "print_at", "dev_operand"]
 
 
 def use_stmt(rng, v, pos, nd):
     """One statement using variable v (a ('var',..) or ('arr',..) node factory) in position pos."""
     is_s = v[1].endswith("$")
     lit = ("str", "X") if is_s else X.num(rng.randint(0, 3))
+    if pos in ("for_start", "for_limit", "for_step", "on_selector", "print_at", "dev_operand"):
+        e = ("fn", "LEN", [v]) if is_s else v
+        if pos == "on_selector":
+            return ("on", e, "GOTO", [10])
+        if pos == "print_at":
+            return ("print", [("e", ("str", "X"))], e)
+        if pos == "dev_operand":
+            return ("dev", "SOUND", {"f": e, "d": X.num(1)})
+        a, b, st = X.num(0), X.num(3), None
+        if pos == "for_start":
+            a = e
+        elif pos == "for_limit":
+            b = e
+        else:
+            st = ("bin", "+", e, X.num(1))
+        return ("forline", a, b, st)
     if pos.startswith("in_"):
         # the only occurrence sits in one arm of an IF: every pass has to look into every arm
         use = ("let", v, lit, False) if rng.random() < 0.6 else ("let", ("var", "R"), ("fn", "LEN", [v]) if is_s else ("fn", "ABS", [v]), False)
@@ -113,7 +130,11 @@ def build(case):
                 node = ("arr", n, [X.num(rng.randint(0, min(3, bd))) for bd in bound])
             else:
                 node = ("var", n)
-            prog.append((ln, [use_stmt(rng, node, pos, nd)]))
+            st = use_stmt(rng, node, pos, nd)
+            if st[0] == "forline":
+                prog.append((ln, [("for", "FI", st[1], st[2], st[3]), ("next", ["FI"])]))
+            else:
+                prog.append((ln, [st]))
             if pos == "read":
                 data_needed += 1
             ln += 10
